@@ -25,6 +25,7 @@ type PermCase struct {
 	GuardNative bool                   `json:"guardNative,omitempty"`
 	ErrBranches bool                   `json:"errBranches,omitempty"`
 	ErrNode     string                 `json:"errNode,omitempty"`
+	InPlace     bool                   `json:"inPlace,omitempty"` // native code deletes/overwrites in the map it is given (like bs.Remove)
 	Direct      bool                   `json:"direct,omitempty"` // call Action.Exec directly instead of Spec.Step
 	Default     bool                   `json:"default,omitempty"`
 }
@@ -54,14 +55,15 @@ func genPerm(t *rapid.T) PermCase {
 	c.ErrBranches = rapid.Bool().Draw(t, "eb")
 	c.ErrNode = rapid.SampledFrom([]string{"", "aerr", "aerr"}).Draw(t, "en")
 	c.Default = rapid.Bool().Draw(t, "def")
+	c.InPlace = (c.Native || c.GuardNative) && rapid.Bool().Draw(t, "inplace")
 	c.Direct = c.Guard == nil && rapid.IntRange(0, 3).Draw(t, "direct") == 0
 	return c
 }
 
 func (c PermCase) spec() *sm.ASpec {
-	n := &sm.ANode{Action: c.Action, ActionNative: c.Native, BranchType: "bindings"}
+	n := &sm.ANode{Action: c.Action, ActionNative: c.Native, InPlace: c.InPlace, BranchType: "bindings"}
 	if c.Guard != nil {
-		n.Branches = append(n.Branches, sm.ABranch{Guard: c.Guard, GuardNative: c.GuardNative, Target: "n1"})
+		n.Branches = append(n.Branches, sm.ABranch{Guard: c.Guard, GuardNative: c.GuardNative, GuardInPlace: c.InPlace, Target: "n1"})
 	}
 	if c.Default || c.Guard == nil {
 		n.Branches = append(n.Branches, sm.ABranch{Target: "n2"})
